@@ -52,9 +52,9 @@ def undoEligible (es : List (Entry H)) (i : EId H) : Bool :=
 
 def redoEligible (es : List (Entry H)) (i : EId H) : Bool := hasId es i && hasRevertOf es i && !hasRedoOf es i
 
-/-- how the specification follows one command of the implementation (the code as it is, `Cfg.current`): it moves only when the command succeeded -/
-def specStep (ops : Ops Tree Plan Backup H) (s : Spec Tree H) (w : World Tree Plan Backup H) (c : Cmd H) : Spec Tree H :=
-  let r := step .current ops w c
+/-- how the specification follows one command of the implementation (for the code with the checks `cfg`): it moves only when the command succeeded -/
+def specStep (cfg : Cfg) (ops : Ops Tree Plan Backup H) (s : Spec Tree H) (w : World Tree Plan Backup H) (c : Cmd H) : Spec Tree H :=
+  let r := step cfg ops w c
   if r.2 = .ok then
     match c with
     | .rename se re => push s (.plan (ops.hash (se ++ re) w.clock)) w.tree r.1.tree
@@ -68,8 +68,8 @@ def AppendsOne (before after : List (Entry H)) : Prop :=
   ∃ e, after = before ++ [e] ∧ hasId before e.id = false
 
 /-- What C10 demands of one command, given the abstract history `s` before it. -/
-def Conforms (ops : Ops Tree Plan Backup H) (w : World Tree Plan Backup H) (s : Spec Tree H) (c : Cmd H) : Prop :=
-  let r := step .current ops w c
+def Conforms (cfg : Cfg) (ops : Ops Tree Plan Backup H) (w : World Tree Plan Backup H) (s : Spec Tree H) (c : Cmd H) : Prop :=
+  let r := step cfg ops w c
   match c with
   | .tick => r.1.tree = w.tree ∧ r.1.entries = w.entries
   | .rename _ _ =>
@@ -84,10 +84,10 @@ def Conforms (ops : Ops Tree Plan Backup H) (w : World Tree Plan Backup H) (s : 
       ∃ i o, resolve w.entries false t = some i ∧ find s i.root = some o ∧ o.applied = false ∧ r.1.tree = o.post) ∨
     (r.2 ≠ .ok ∧ r.1.tree = w.tree ∧ r.1.entries = w.entries)
 
-def AllConform (ops : Ops Tree Plan Backup H) :
+def AllConform (cfg : Cfg) (ops : Ops Tree Plan Backup H) :
     World Tree Plan Backup H → Spec Tree H → List (Cmd H) → Prop
   | _, _, [] => True
-  | w, s, c :: cs => Conforms ops w s c ∧ AllConform ops (step .current ops w c).1 (specStep ops s w c) cs
+  | w, s, c :: cs => Conforms cfg ops w s c ∧ AllConform cfg ops (step cfg ops w c).1 (specStep cfg ops s w c) cs
 
 /-- The round-trip law of the tree side (C01's subject), assumed by the refinement theorem: undoing with the
     reverse patches an apply produced, on the tree it produced, gives back the tree it started from. -/
@@ -125,10 +125,10 @@ def G10 (ops : Ops Tree Plan Backup H) (w : World Tree Plan Backup H) (s : Spec 
         (match find s i.root with | some o => decide (w.tree = o.pre) | none => false)
 
 /-- the guard holds at every step of the run -/
-def Guarded (ops : Ops Tree Plan Backup H) :
+def Guarded (cfg : Cfg) (ops : Ops Tree Plan Backup H) :
     World Tree Plan Backup H → Spec Tree H → List (Cmd H) → Bool
   | _, _, [] => true
-  | w, s, c :: cs => G10 ops w s c && Guarded ops (step .current ops w c).1 (specStep ops s w c) cs
+  | w, s, c :: cs => G10 ops w s c && Guarded cfg ops (step cfg ops w c).1 (specStep cfg ops s w c) cs
 
 end
 end HistorySpec
